@@ -566,6 +566,9 @@ func (rl *Shell) viChangeTo() {
 		// Since we must emulate the default readline behavior,
 		// we vary our behavior depending on the caller key.
 		keys := rl.Keys.Caller()
+		if len(keys) == 0 {
+			return
+		}
 
 		switch keys[0] {
 		case 'c':
@@ -618,6 +621,9 @@ func (rl *Shell) viDeleteTo() {
 		// Since we must emulate the default readline behavior,
 		// we vary our behavior depending on the caller key.
 		keys := rl.Keys.Caller()
+		if len(keys) == 0 {
+			return
+		}
 
 		switch keys[0] {
 		case 'd':
@@ -977,6 +983,9 @@ func (rl *Shell) viYankTo() {
 		// Since we must emulate the default readline behavior,
 		// we vary our behavior depending on the caller key.
 		keys := rl.Keys.Caller()
+		if len(keys) == 0 {
+			return
+		}
 
 		switch keys[0] {
 		case 'y':
